@@ -1,7 +1,10 @@
 package props
 
 import (
+	"fmt"
 	"strings"
+
+	"verifsim/simnet"
 
 	"verifsim/simrt"
 )
@@ -23,6 +26,10 @@ func init() {
 }
 
 func runC19(r *R) {
+	if (r.Mode == "" && r.W.Draw(3) == 0) || r.Mode == "scenario" {
+		c19Scenario(r)
+		return
+	}
 	sp := genHTTPFaultSpec(r, true)
 	r.Sample(sp.describe())
 	out := runHTTPFaults(r, sp)
@@ -76,4 +83,139 @@ func runC19(r *R) {
 			}
 		}
 	}
+}
+
+// ---- scenario gun against arbitrary response contents ----
+
+var c19Bodies = []string{"", "{}", "{\"a\": {\"b\": [1, 2]}, \"items\": [1, 2, 3], \"token\": \"t\"}", "{\"a\": 5}", "{\"a\": {\"b\": []}}", "[1, 2", "null", "<html><head><title>T</title></head><body><div class='data'>d1</div><div class='data'>d2</div></body></html>",
+	"<html><body><p>no data here</p></body></html>", "<html><div class='data'>", "\x00\x01\x02\xff\xfe binary", "plain text", "<?xml version=\"1.0\"?><root><title>x</title></root>"}
+var c19HdrVals = []string{"", "a", "ab", "abc", "abcde", "Basic Ym9zY236Ym9zY28=", "0123456789"}
+
+func c19ScenarioYAML(w *simrt.Stream) string {
+	substr := []string{"substr(5)", "substr(2,4)", "substr(0)", "substr(7, 3)", "substr(-3)", "substr(1,-1)", "substr(3,100)"}
+	var b strings.Builder
+	b.WriteString("calls: [ ]\nrequests:\n")
+	fmt.Fprintf(&b, "  - name: hdr\n    method: GET\n    uri: /hdr\n    postprocessors:\n      - type: var/header\n        mapping:\n          a: X-Val|%s\n          b: X-Val|%s|upper\n          c: X-Val|lower|replace(a,b)\n          d: Missing-Header|%s\n", substr[w.Draw(len(substr))], substr[w.Draw(len(substr))], substr[w.Draw(len(substr))])
+	b.WriteString("  - name: xp\n    method: GET\n    uri: '/xp?v={{.request.hdr.postprocessor.a}}'\n    postprocessors:\n      - type: var/xpath\n        mapping:\n          d: \"//div[@class='data']\"\n          t: //title\n")
+	b.WriteString("  - name: jp\n    method: POST\n    uri: /jp\n    body: '{\"d\": \"{{.request.xp.postprocessor.d}}\"}'\n    postprocessors:\n      - type: var/jsonpath\n        mapping:\n          v: $.a.b[0]\n          items: $.items\n          tok: $.token\n")
+	b.WriteString("  - name: as\n    method: GET\n    uri: '/as?i={{.request.jp.postprocessor.v}}'\n    postprocessors:\n      - type: assert/response\n        headers:\n          X-Val: a\n        body: [\"a\"]\n        size:\n          val: 5\n          op: '>'\n")
+	b.WriteString("scenarios:\n  - name: sc\n    requests: [hdr, xp, jp, as]\n  - name: sc2\n    requests: [jp, xp(2), hdr]\n")
+	return b.String()
+}
+
+func c19Scenario(r *R) {
+	w, f := r.W, r.F
+	yaml := c19ScenarioYAML(w)
+	inst := 1 + w.Draw(3)
+	invocations := 2 + w.Draw(8)
+	type ans struct {
+		status int
+		hdr    string
+		hasHdr bool
+		body   string
+	}
+	var plan []ans
+	for i := 0; i < invocations*5; i++ {
+		plan = append(plan, ans{status: []int{200, 200, 200, 204, 304, 404, 500, 201}[f.Draw(8)], hdr: c19HdrVals[f.Draw(len(c19HdrVals))], hasHdr: f.Draw(4) != 0, body: c19Bodies[f.Draw(len(c19Bodies))]})
+	}
+	r.Sample(map[string]any{"mode": "scenario", "instances": inst, "invocations": invocations, "description": yaml})
+	r.NonTrivial()
+	target := "10.0.0.11:8080"
+	var tgt *httpTarget
+	res := runHTTPPool(r, httpPoolSpec{
+		Ammo:      map[string]interface{}{"type": "http/scenario", "file": "/ammo/scenario.yaml", "limit": invocations},
+		Gun:       map[string]interface{}{"type": "http/scenario", "target": target},
+		Instances: inst, Tokens: invocations + 2,
+		Files: map[string][]byte{"/ammo/scenario.yaml": []byte(yaml)},
+	}, nil, func(nw *simnet.Net) {
+		tgt = startHTTPTarget(nw, target, false, func(n int, s *seenReq) respScript {
+			a := plan[n%len(plan)]
+			rs := respScript{Status: a.status, Hdr: map[string]string{}}
+			if a.hasHdr {
+				rs.Hdr["X-Val"] = a.hdr
+			}
+			if a.status != 204 && a.status != 304 {
+				rs.Body = []byte(a.body)
+			}
+			return rs
+		})
+	})
+	for _, a := range plan {
+		r.Note(fmt.Sprintf("scenario-answer/status-%d", a.status))
+	}
+	switch res.Sim.Class {
+	case simrt.Crash:
+		r.Fail("CRASH/scenario/"+frameSig(res.Sim.Stack), "%s\n%s", res.Sim.Detail, res.Sim.Stack)
+		return
+	case simrt.Hang, simrt.Livelock, simrt.Spin:
+		r.Fail("run-never-ends/scenario", "%s (run returned=%v, %d samples)", res.Sim.Detail, res.RunDone, len(res.Samples))
+		return
+	}
+	if res.DecodeErr != nil {
+		r.Fail("description-rejected", "the valid scenario description was rejected: %v\n%s", res.DecodeErr, yaml)
+		return
+	}
+	if res.RunErr != nil {
+		cls := "run-aborted/scenario"
+		if strings.Contains(res.RunErr.Error(), "shoot panic") {
+			cls = "shoot-panic/scenario"
+		}
+		r.Fail(cls, "Engine.Run returned %q after %d samples; the target's answers: %+v", res.RunErr, len(res.Samples), plan[:min(len(plan), len(tgt.Seen())+1)])
+		return
+	}
+	seen := tgt.Seen()
+	// one sample per executed step; a step that fails before its request is sent (template / preprocessor error)
+	// is reported too: at most one such step per invocation
+	// (a request the target's HTTP parser rejects with 400 - e.g. an unrendered '<no value>' in the URI - never
+	// reaches the handler's log, so the log is a lower bound; 4 steps per invocation is the upper bound)
+	if len(res.Samples) < len(seen) || len(res.Samples) > 4*invocations {
+		var tags, uris []string
+		for _, sm := range res.Samples {
+			tags = append(tags, fmt.Sprintf("%s/%d/%s", sm.Tags, sm.Proto, clip(sm.Err)))
+		}
+		for _, sq := range seen {
+			uris = append(uris, sq.Method+" "+sq.URI)
+		}
+		r.Fail("sample-count/scenario", "%d step requests reached the target in %d invocations, %d samples were reported; samples %v; requests %v", len(seen), invocations, len(res.Samples), tags, uris)
+	}
+	// every invocation was attempted: each one starts with /hdr (sc) or /jp (sc2); sc2's xp(2) never starts one
+	starts := 0
+	for i, s := range seen {
+		if strings.HasPrefix(s.URI, "/hdr") && (i == 0 || !strings.HasPrefix(seen[i-1].URI, "/xp") || inst > 1) {
+			starts++
+		}
+	}
+	if inst == 1 {
+		// sequential invocations: count them exactly from the log (sc: hdr first; sc2: jp first, hdr last)
+		n := 0
+		for i := 0; i < len(seen); {
+			n++
+			switch {
+			case strings.HasPrefix(seen[i].URI, "/hdr"):
+				i++
+				for _, want := range []string{"/xp", "/jp", "/as"} {
+					if i < len(seen) && strings.HasPrefix(seen[i].URI, want) {
+						i++
+					} else {
+						break
+					}
+				}
+			case strings.HasPrefix(seen[i].URI, "/jp"):
+				i++
+				for _, want := range []string{"/xp", "/xp", "/hdr"} {
+					if i < len(seen) && strings.HasPrefix(seen[i].URI, want) {
+						i++
+					} else {
+						break
+					}
+				}
+			default:
+				i++
+			}
+		}
+		if n < invocations {
+			r.Fail("invocations-not-attempted/scenario", "%d scenario invocations were to be shot by one instance, the target's log shows %d", invocations, n)
+		}
+	}
+	_ = starts
 }
